@@ -458,6 +458,26 @@ class FuncTr:
                     while toks[j][1] != 'to': j -= 1
                     t2 = P(toks[j+1:]).type()
                     if t2.kind == 'ptr' and t2.to.kind in ('named', 'struct'): s.newtype.setdefault(toks[5][1], t2.to)
+        # Emit the blocks in reverse post-order of the CFG: then the only backward gotos are the genuine loop back edges (latch -> header).
+        # In LLVM's textual order the unique latch of a loop with several `continue`s precedes its predecessors, every `continue` becomes a
+        # backward goto of its own and CBMC reports a failed unwinding assertion for any bound.
+        def succs(insts):
+            t = insts[-1] if insts else []
+            return [t[i + 1][1].lstrip('%') for i in range(len(t) - 1) if t[i][1] == 'label' and t[i + 1][0] == 'lid']
+        bmap = {lab.lstrip('%'): (lab, insts) for lab, insts in f.blocks}
+        order = []; seen = set()
+        if f.blocks:
+            stack = [(f.blocks[0][0].lstrip('%'), iter(succs(f.blocks[0][1])))]; seen.add(f.blocks[0][0].lstrip('%'))
+            while stack:
+                lab, it = stack[-1]
+                nxt = None
+                for x in it:
+                    if x in bmap and x not in seen: nxt = x; break
+                if nxt is None: order.append(lab); stack.pop()
+                else: seen.add(nxt); stack.append((nxt, iter(succs(bmap[nxt][1]))))
+            order.reverse()
+            rest = [lab.lstrip('%') for lab, _ in f.blocks if lab.lstrip('%') not in seen]
+            f.blocks = [bmap[l] for l in order + rest]
         for bi, (lab, insts) in enumerate(f.blocks):
             s.cur = lab
             s.out.append('%s: ;' % s.lab(lab))
